@@ -53,6 +53,9 @@ def run(chk):
             for via in (1, 2):
                 d = dict(c); d["via_places"] = via; d["scope"] = f"{c['scope']}/places{via}"
                 extra.append(d)
+        if c["scope"] == "arrays" and len(c["arrays"]) > 1:
+            d = dict(c); d["share_defs"] = False; d["scope"] = "arrays/unshared"
+            extra.append(d)
     cases += extra
     for i, c in enumerate(cases):
         c["id"] = i
@@ -74,12 +77,12 @@ def run(chk):
         else:
             got = {p["name"]: p for p in q["placed"]}
             if c["arrays"]:
-                for a, elems in zip(c["arrays"], c["array_elems"]):
-                    want = [(tuple(e["xy"]), e["rh"], e["rv"], e["cell"]) for e in elems]
-                    have = [(tuple(p["xy"]) if isinstance(p["xy"], list) else p["xy"], p["rh"], p["rv"], p["cell"]) for p in q["placed"]]
-                    if sorted(want) != sorted(have):
-                        chk.violation(f"array-expansion-wrong:rh{int(a['rh'])}rv{int(a['rv'])}:{'nested' if a['inner'] else 'flat'}", "Placer::flatten_array_inst",
-                                      {"array": a}, {"want": want[:6], "got": have[:6], "count_want": len(want), "count_got": len(have)})
+                want = [(tuple(e["xy"]), e["rh"], e["rv"], e["cell"]) for elems in c["array_elems"] for e in elems]
+                have = [(tuple(p["xy"]) if isinstance(p["xy"], list) else p["xy"], p["rh"], p["rv"], p["cell"]) for p in q["placed"]]
+                if sorted(want) != sorted(have):
+                    a = c["arrays"][-1]
+                    chk.violation(f"array-expansion-wrong:rh{int(a['rh'])}rv{int(a['rv'])}:{'nested' if a['inner'] else 'flat'}:{len(c['arrays'])}-instances", "Placer::flatten_array_inst",
+                                  {"arrays": c["arrays"]}, {"want": want[:6], "got": have[:6], "count_want": len(want), "count_got": len(have)})
                 continue
             for e in c["expect"]:
                 p = got.get(e["name"])
@@ -125,7 +128,7 @@ def run(chk):
         "model_checking",
         rule="3072 single-relation programs (4 sides x 2 orthogonal alignments x 3 separation kinds x 4 x 4 reflections x 2 x 2 cell sizes x 2 "
              "listing orders); chains (36 relation pairs x 4 reflection pairs x 6 listing orders) and trees of three; 1-, 2- and 3-cycles incl. a "
-             "cycle behind an acyclic prefix; 144 arrays (count 1..4 x 3 pitches x 4 reflections x {flat, nested x 2}). TLC explores every "
+             "cycle behind an acyclic prefix; 144 arrays (count 1..4 x 3 pitches x 4 reflections x {flat, nested x 2}), 288 pairs of independently reflected array instances sharing (and not sharing) one definition. TLC explores every "
              "placement interleaving of each program.",
         assumptions=["references are instances located in the same layout (placement relative to an array or group reaches todo!() and is outside the statement)",
                      "alignment is orthogonal to the side; separation is given in the side's axis", "arrays are located absolutely"],
